@@ -63,3 +63,12 @@ claim("C19", "lockset queries (go/cfg) for the key table and bucket channels, ow
       "Decides the discipline that the pool property rests on: all table accesses and bucket sends/closes under the mutex; each received connection handed out xor closed on every path, drains close everything; hand-out only after Usable() and a lifetime test of the right direction; closed buckets unlinked in the same critical section, slots never written back across a released mutex; shutdown marker set by Close and tested by Return under the lock; single user. Interleavings and liveness are not explored.",
       "trusts go/types, go/cfg; model world for time arithmetic (stamps=1000, limits=100)", "DESIGN.md §3 C19")
 PENDING.pop("C19", None)
+
+claim("C04", "must-pass / miss-edge queries over go/cfg of the rule-insertion loops and of the two block selectors; sibling stage-sequence comparison; provenance of lookup keys through the normaliser",
+      "Decides the structural part of routing precedence: rule keys normalised before duplicate test and insert (first declaration wins on the normalised key); selectors normalise with address.ForLookup and use that value for table/full/domain lookups; stage order table ≺ full ≺ domain ≺ default with later stages only over miss edges, identical in both selectors; hand-over only to the selected block's targets after the reject reply was honoured. Semantic comparison with the documentation over generated configurations is not decided.",
+      "trusts go/types, go/cfg; what the normaliser computes is C17", "DESIGN.md §3 C04")
+PENDING.pop("C04", None)
+claim("C06", "sibling stage-sequence comparison of the two body paths, error-edge reachability queries (go/cfg) for every check stage, once-guard/slot analysis of the parallel merge, publish-after-replay ordering query",
+      "Decides: Body and BodyNonAtomic run the same ordered stages; after an error of any check stage no success return and no hand-over to a target is reachable; reject has its own once-guarded slot, is returned first after Wait, quarantine accumulates and is copied to the message; new check states are published only after a successful replay. 'Exactly once per check' over completion orders is not explored.",
+      "trusts go/types, go/cfg", "DESIGN.md §3 C06")
+PENDING.pop("C06", None)
